@@ -510,6 +510,7 @@ def resolve(case):
     env = Env(slots, by_value=True)
     keep = []                  # keeps every container alive so that id() values are never reused
     alias_objs = []            # model object of alias k (None once invalidated by a reload)
+    alias_slot = []            # slot whose value alias k was taken from
     alias_stale = []           # alias k was taken before `parent[key] op= ...` re-bound a subtree containing it
     inserted = set()           # ids of containers inserted by earlier steps
     unwrapped = set()          # ids of containers that entered through a non-list iterable of extend / slice assignment
@@ -544,7 +545,8 @@ def resolve(case):
         pref = op.get('pref', 'any')
         sel = op.get('sel', 0)
         if pref == 'alias':
-            ks = [k for k, a in enumerate(alias_objs) if a is not None and (want is None or isinstance(a, want))]
+            ks = [k for k, a in enumerate(alias_objs) if a is not None and (want is None or isinstance(a, want))
+                  and (slot is None or alias_slot[k] == slot)]      # a hand-over never targets the slot it reads from
             if ks:
                 k = ks[sel % len(ks)]
                 return {'alias': k}, alias_objs[k]
@@ -645,6 +647,8 @@ def resolve(case):
             continue
         if nslots > 1 and step['do'] not in SESSION_OPS and 'on' not in step:
             step['on'] = slot_of(op)
+            if 't' in step and 'alias' in step['t']:        # a step through an alias acts on the slot the alias came from
+                step['on'] = alias_slot[step['t']['alias']]
 
         do = step['do']
         classes.add('op:' + (do if do != 'read' else 'read'))
@@ -687,7 +691,7 @@ def resolve(case):
         steps.append(step); src.append(step_src(names, step))
 
         if do == 'alias':
-            alias_objs.append(env.aliases[step['name']]); alias_stale.append(False)
+            alias_objs.append(env.aliases[step['name']]); alias_stale.append(False); alias_slot.append(step.get('on', 0))
             classes.add('alias_taken')
             continue
         if do == 'read':
@@ -965,7 +969,18 @@ def strategies():
         def peer_op(draw):      # op mix for cases with a peer slot: hand-overs and more flush/commit in between
             return draw(cats[draw(st.sampled_from(['mut'] * 10 + ['handover'] * 5 + ['session'] * 5 + ['alias'] * 2
                                                   + ['assign', 'read']))])
+        @st.composite
+        def handover_history(draw):
+            # the history class "hand over, (write the hand-over), change in place through the receiver or the source"
+            h = draw(handover)
+            mid = draw(st.sampled_from([[], [{'op': 'flush'}], [{'op': 'commit'}], [{'op': 'flush'}], [{'op': 'commit'}],
+                                        [{'op': 'touch', 'n': 1}, {'op': 'flush'}], [{'op': 'reload'}]]))
+            mid = [dict(m) for m in mid]
+            follow = dict(draw(mut), pref=draw(st.sampled_from(['new', 'new', 'new', 'any'])))
+            follow['on'] = draw(st.sampled_from([1 - h['from']] * 3 + [h['from']]))
+            return [h] + mid + [follow]
         mut_op, read_op, peer_op = mut_op(), read_op(), peer_op()
+        peer_op = (peer_op, handover_history())
         return mut_op, read_op, peer_op
 
     ops = {k: build(k) for k in ATTR}
@@ -981,7 +996,13 @@ def strategies():
         if draw(st.sampled_from([False, False, False, True, True])):
             variant = 'obj' if kind in ARRAY_KINDS else draw(st.sampled_from(['obj', 'obj', 'attr', 'both']))
             case['peer'] = {'variant': variant, 'doc': draw(root[kind])}
-            case['prog'] = draw(st.lists(read_op if readonly else peer_op, min_size=2 - readonly, max_size=7))
+            peer_op, history = peer_op
+            if readonly:
+                case['prog'] = draw(st.lists(read_op, min_size=1, max_size=6))
+            elif draw(st.booleans()):
+                case['prog'] = (draw(st.lists(peer_op, max_size=2)) + draw(history) + draw(st.lists(peer_op, max_size=2)))
+            else:
+                case['prog'] = draw(st.lists(peer_op, min_size=2, max_size=7))
         else:
             case['prog'] = draw(st.lists(read_op if readonly else mut_op, min_size=1, max_size=6))
         return case
@@ -1164,6 +1185,7 @@ def handover_grid():
     for variant, froms, src_sels, mids, origins in plan:
         for origin in origins:
             for frm in froms:
+                if origin == 'flushed' and frm == 0: continue
                 for src_sel in src_sels:
                     for how in hows:
                         for sel in ((0,) if how.get('whole') else (0, 1)):
